@@ -1,8 +1,157 @@
-/- Model driver for C06 (stub: no ops yet). -/
+/-
+  Model driver for C06 (units).  Line protocol: see DrvCore.  Imports only Mathlib-free files.
+
+  Tokens: type names plain; unit strings as `u:<unit>` with blanks written `^` (`u:fl^oz`), Python's
+  `None` as `none`; numbers in requests are IEEE bit patterns (16 hex digits), decoded *exactly* to
+  rationals; numbers in answers are exact rationals `p/q`.
+
+    fn T i d x             -> ok r          d=0: toBase[i] (unit i -> base), d=1: fromBase[i]
+    to_unit T u:to u:from n x1..xn   -> ok r1..rn | err:value
+    to_ip / to_si T u:from n x1..xn  -> ok u:unit r1..rn | err:value
+    in_range T (u:unit|none) n x1..xn -> ok 0|1 | err:value
+    header T u:unit        -> ok | err:value
+    coll T u:unit n x1..xn op*       op = cu u:x | ci | cs | tu u:x | ti | ts
+        -> per op ` | <res> # T:<type> u:<unit> r1..rn`  where res = ok | err:value |
+           new T:<type> u:<unit> r1..rn   (state after `#` is the collection the op was called on)
+    tables T               -> units / si / ip / targets / limits as the model holds them
+-/
 import Ladybug.DrvCore
+import Ladybug.Model.Units
+import Ladybug.Gen.Units
+
+open Drv Units
 
 namespace DrvC06
-def handle (_toks : List String) : String := "bad-op"
+
+/-- `math.pi` as the exact rational value of the double 0x400921FB54442D18. -/
+def piRat : Rat := (Py.ratOfFloatBits 0x400921FB54442D18).getD 0
+
+def table : List UType := Gen.Units.allTypes piRat
+
+def findT (name : String) : Option UType := table.find? (·.name = name)
+
+def unitTok? (s : String) : Option String :=
+  if s.startsWith "u:" then some ((s.drop 2).toString.replace "^" " ") else none
+
+def showUnit (u : String) : String := "u:" ++ u.replace " " "^"
+
+def showErr : Err → String
+  | .value => "err:value"
+  | .attr => "err:attr"
+
+def rats? (l : List String) : Option (List Rat) :=
+  l.mapM fun s => (floatBits? s).bind fun f => Py.ratOfFloatBits f.toBits
+
+/-- `n x1..xn rest` -/
+def takeVals (l : List String) : Option (List Rat × List String) :=
+  match l with
+  | [] => none
+  | n :: rest =>
+    match n.toNat? with
+    | none => none
+    | some k =>
+      if rest.length < k then none
+      else (rats? (rest.take k)).map fun v => (v, rest.drop k)
+
+def showRats (l : List Rat) : String := joinSp (l.map showRat)
+
+def showBound : Bound → String
+  | .negInf => "-inf"
+  | .posInf => "inf"
+  | .nan => "nan"
+  | .fin r => showRat r
+
+def showState (c : Coll) : String :=
+  joinSp (["T:" ++ c.T.name, showUnit c.unit] ++ c.values.map showRat)
+
+/-- Run the op tokens of a `coll` request on the model collection. -/
+def runOps (fuel : Nat) (c : Coll) (ops : List String) (acc : String) : String :=
+  match fuel with
+  | 0 => acc
+  | fuel + 1 =>
+    let conv (r : Except Err Coll) (rest : List String) : String :=
+      match r with
+      | .ok c' => runOps fuel c' rest (acc ++ " | ok # " ++ showState c')
+      | .error e => runOps fuel c rest (acc ++ " | " ++ showErr e ++ " # " ++ showState c)
+    let dup (r : Except Err Coll) (rest : List String) : String :=
+      match r with
+      | .ok c' => runOps fuel c rest (acc ++ " | new " ++ showState c' ++ " # " ++ showState c)
+      | .error e => runOps fuel c rest (acc ++ " | " ++ showErr e ++ " # " ++ showState c)
+    match ops with
+    | [] => acc
+    | "cu" :: u :: rest =>
+      match unitTok? u with
+      | some u => conv (c.convertToUnit u) rest
+      | none => "bad-op"
+    | "tu" :: u :: rest =>
+      match unitTok? u with
+      | some u => dup (c.convertToUnit u) rest
+      | none => "bad-op"
+    | "ci" :: rest => conv c.convertToIp rest
+    | "cs" :: rest => conv c.convertToSi rest
+    | "ti" :: rest => dup c.convertToIp rest
+    | "ts" :: rest => dup c.convertToSi rest
+    | _ => "bad-op"
+
+def handle (toks : List String) : String :=
+  match toks with
+  | ["fn", t, i, d, x] =>
+    match findT t, i.toNat?, d.toNat?, rats? [x] with
+    | some T, some i, some d, some [x] =>
+      match (if d = 0 then T.toBase else T.fromBase)[i]? with
+      | some f => "ok " ++ showRat (f x)
+      | none => "err:index"
+    | _, _, _, _ => "bad-op"
+  | "to_unit" :: t :: u :: f :: rest =>
+    match findT t, unitTok? u, unitTok? f, takeVals rest with
+    | some T, some u, some f, some (vals, []) =>
+      match T.toUnit vals u f with
+      | .ok r => joinSp ("ok" :: r.map showRat)
+      | .error e => showErr e
+    | _, _, _, _ => "bad-op"
+  | "to_ip" :: t :: f :: rest =>
+    match findT t, unitTok? f, takeVals rest with
+    | some T, some f, some (vals, []) =>
+      match T.toIp vals f with
+      | .ok (r, u) => joinSp ("ok" :: showUnit u :: r.map showRat)
+      | .error e => showErr e
+    | _, _, _ => "bad-op"
+  | "to_si" :: t :: f :: rest =>
+    match findT t, unitTok? f, takeVals rest with
+    | some T, some f, some (vals, []) =>
+      match T.toSi vals f with
+      | .ok (r, u) => joinSp ("ok" :: showUnit u :: r.map showRat)
+      | .error e => showErr e
+    | _, _, _ => "bad-op"
+  | "in_range" :: t :: u :: rest =>
+    let unit : Option (Option String) := if u = "none" then some none else (unitTok? u).map some
+    match findT t, unit, takeVals rest with
+    | some T, some unit, some (vals, []) =>
+      match T.isInRange vals unit with
+      | .ok b => "ok " ++ showBool b
+      | .error e => showErr e
+    | _, _, _ => "bad-op"
+  | ["header", t, u] =>
+    match findT t, unitTok? u with
+    | some T, some u => if Coll.headerOk T u then "ok" else "err:value"
+    | _, _ => "bad-op"
+  | "coll" :: t :: u :: rest =>
+    match findT t, unitTok? u, takeVals rest with
+    | some T, some u, some (vals, ops) =>
+      if Coll.headerOk T u then runOps (ops.length + 1) ⟨T, u, vals⟩ ops "ok"
+      else "err:value"
+    | _, _, _ => "bad-op"
+  | ["tables", t] =>
+    match findT t with
+    | some T =>
+      joinSp (["ok", "P:" ++ T.parent, "units"] ++ T.units.map showUnit ++ ["si"] ++ T.siUnits.map showUnit
+        ++ ["ip"] ++ T.ipUnits.map showUnit ++ ["base", toString T.baseIdx, "toip"] ++ T.ipTarget.map toString
+        ++ ["tosi"] ++ T.siTarget.map toString ++ ["min", showBound T.min, "max", showBound T.max,
+        "strict", showBool T.strictIp, showBool T.strictSi])
+    | none => "err:key"
+  | ["names"] => joinSp (table.map (·.name))
+  | _ => "bad-op"
+
 end DrvC06
 
 def main : IO Unit := Drv.run DrvC06.handle
